@@ -73,6 +73,15 @@ func checkCatalogue(h *Hub, settings map[string]dsSettings) (*Violation, string)
 	for _, n := range names {
 		exists[n] = true
 	}
+	// the list the API hands out (GET /datasets) against the datasets that exist
+	var listed []string
+	for _, dn := range h.Dsm.GetDatasetNames() {
+		listed = append(listed, dn.Name)
+	}
+	sort.Strings(listed)
+	if strings.Join(listed, ",") != strings.Join(names, ",") {
+		return viol("C19", "catalogue", "dataset-list-differs-from-datasets", "the dataset list is %v, the datasets that exist are %v", listed, names), ""
+	}
 	core := h.Dataset("core.Dataset")
 	if core == nil {
 		return viol("C19", "catalogue", "core-missing", "core.Dataset does not exist"), ""
